@@ -117,6 +117,17 @@ def gen_eval(ctx):
         xs = "[ " + " ".join(rng.choice(ext[:10] if rng.random() < 0.7 else ext) for _ in range(rng.randrange(1, 6))) + " ]"
         out.append((rng.choice(["sum(@)", "avg(@)", "max(@)", "min(@)", "sort(@)", "map(&abs(@), @)", "map(&ceil(@), @)", "map(&floor(@), @)", "sum(@) > `0`",
                                 "to_string(sum(@))", "sort_by(@, &@)", "[?@ < `0`]", "map(&to_number(to_string(@)), @)", "length(to_string(@))"]), xs))
+    # long arrays of numbers a few ulps apart (equal for the tolerant ==, different for <): an ordering that is not a total order
+    # makes a sorting routine misbehave or panic only on larger inputs
+    import struct as _st
+    for _ in range(120 if q else 6000):
+        base = rng.choice([0.3, 1.0, 1e16, 123456.789, 2.0 ** 60, 0.1 + 0.2, 1e-300])
+        bits = _st.unpack("<Q", _st.pack("<d", base))[0]
+        n = rng.choice([21, 24, 33, 40, 64, 100])
+        xs = ["d%016x" % (bits + rng.randrange(0, 4)) for _ in range(n)]
+        doc = "[ " + " ".join(xs) + " ]"
+        out.append((rng.choice(["sort(@)", "sort_by(@, &@)", "max(@)", "min(@)", "sort(@) | [0]", "sort_by(@, &@)[-1]", "max_by(@, &@)", "reverse(sort(@))",
+                                "[?@ <= `0.3`] | sort(@)", "sort(@) == sort(reverse(@))"]), doc))
     eg = G.ExprGen(rng, funcs=True)
     for _ in range(2000 if q else 300000):
         out.append((G.spell(rng, eg.expr()), rng.choice(big) if rng.random() < 0.2 else G.rand_doc(rng, 3)))
@@ -125,6 +136,37 @@ def gen_eval(ctx):
 
 def ntokens(e):
     return len(e) // 2
+
+
+def depth_estimate(e):
+    """an upper estimate of how deep the syntax tree of `e` nests or chains: bracket nesting plus the number of prefix / infix / postfix
+    operators chained at one level since the last comma (a wide list `[a, a, …]` or `f(a, a, …)` has depth 1 however long it is)"""
+    level, best = 0, 0
+    chain = [0]
+    i, n = 0, len(e)
+    while i < n:
+        c = e[i]
+        if c in "'`\"":
+            j = i + 1
+            while j < n and e[j] != c:
+                j += 2 if e[j] == "\\" else 1
+            i = j + 1
+            continue
+        if c in "([{":
+            chain[-1] += 1
+            level += 1
+            chain.append(0)
+        elif c in ")]}":
+            if level:
+                level -= 1
+                chain.pop()
+        elif c == ",":
+            chain[-1] = 0
+        elif c in ".|&!<>=":
+            chain[-1] += 1
+        best = max(best, level + chain[-1])
+        i += 1
+    return best
 
 
 def run(ctx):
@@ -146,7 +188,7 @@ def run(ctx):
             ctx.violation(stream, case, o[:200] + " = " + (C.unhexs(o.split(" ")[1]) if " " in o else ""), "Ok or a JmespathError", "panic")
         elif o.startswith("ABORT") or o.startswith("HANG") or o == "NONE":
             kinds["abort" if o.startswith("ABORT") else "hang"] += 1
-            if ntokens(expr) > 1000:
+            if depth_estimate(expr) > 1000:
                 known12 = known12 or (expr[:40] + "…", len(expr))
                 if "F12" not in listed:
                     ctx.violation(stream, case if len(str(case)) < 400 else ["<long>", len(expr)], o, "Ok or a JmespathError", "abort on deep nesting; not listed")
@@ -185,6 +227,12 @@ def run(ctx):
     for d in PROBE_DEPTHS_OK + (PROBE_DEPTHS_DEEP if True else []):
         for name, e in probes(d):
             pr.append((name, d, e))
+    # wide probes: long but FLAT expressions (nesting depth 1) — nothing recursive should depend on their length
+    for wdt in [3000, 30000, 120000, 300000]:
+        for name, e in [("wide-list", "[" + ", ".join(["a"] * wdt) + "]"), ("wide-args", "not_null(" + ", ".join(["a"] * wdt) + ")"),
+                        ("wide-hash", "{" + ", ".join("k%d: a" % i for i in range(wdt)) + "}"), ("wide-literal", "`[" + ",".join(["1"] * wdt) + "]`"),
+                        ("wide-dot-list", "a.[" + ", ".join(["b"] * wdt) + "]"), ("wide-raw", "'" + "x" * wdt + "'")]:
+            pr.append((name, wdt, e))
     # run one per process batch so an abort is attributed exactly
     outs = C.run_exec([ctx.harness, "eval"], [C.hexs(e) + "\t" + "{ s61 [ { s62 [ u1 ] } ] }" for _, _, e in pr], idle_timeout=60)
     for (name, d, e), o in zip(pr, outs):
